@@ -35,6 +35,10 @@ chk("C04",
     "Bounded-exhaustive model checking of ExprLexer/ExprParser: every token sequence of length <=5 (thorough 6) over a 22-token alphabet with all whitespace interleavings for short sequences, every character string of length <=5 (thorough 6) over the 26 lexically relevant characters, and a numeric sub-enumeration up to the 32/64-bit boundaries, each compared with a reference tokeniser and grammar written from the documented language (accept/reject, normalised tree = precedence, literal values, lower-casing, end offset, single error with offset inside the text); short sequences also through Linter.Lint in run: and bare if: positions.",
     "Sentences longer than the bounds are not explored (the 'randomly beyond the bound' part of the quantifier is not claimed); token classes are represented by one spelling each in the token enumeration; appendix-A don't-care classes are not compared." + OVERLAY_NOTE,
     "exhaustive enumeration of all token sequences / character strings up to a length bound vs reference grammar")
+chk("C05",
+    "Bounded-exhaustive exploration of workflow shapes against the scope rules of the statement, computed by the generator over what it defined where: steps (jobs<=2 x steps<=3 (thorough 4) x every subset of id-carrying steps x reference in 8 step fields of every step and in job outputs / environment.url x every target id of either job or an undefined one), needs (3 jobs x all 64 edge sets x all 6 file orders x needed job being a step job or a reusable-workflow call; .result, declared and undeclared outputs from every job), matrix (10 definitions incl. include-only / include-added keys, nested values, row / include / include element / whole matrix by expression x 7 positions), inputs / secrets / jobs.<job>.outputs (workflow_call x workflow_dispatch x declared secrets, automatic secrets); every case linted by the real Linter; 'property is not defined' at the reference iff out of scope.",
+    "Shapes beyond the bounds are not explored; definitions and references deliberately differ in letter case." + OVERLAY_NOTE,
+    "exhaustive small-scope enumeration of workflow structures vs generator-computed scope rules")
 chk("C06",
     "Bounded-exhaustive differential model checking of the real ExprSemanticsChecker: accessor chains of length <=3 over {.y, .z, .*, [0], ['y']} on <ctx>.x and chains over {.x, ['x'], .*, .y, [0]} on the context itself, each in 26 contexts (unary/binary operators, every argument slot of contains/startsWith/endsWith/format/join/toJSON/fromJSON/hashFiles, as index, indexed, filtered) x contexts {matrix, steps, needs, inputs, secrets, jobs} typed {x: T} for every type term T of depth <=2 (thorough 3) over {null, number, bool, string, any, array, strict object, open object, map} x every single loosening (sub-term -> any, strict -> open); oracle = the property's own relation: accepted under G implies accepted under the loosened G'. End-to-end: literal matrix rows / whole matrix / include replaced by fromJSON(...), a known action by an unknown one, declared job outputs by a reusable-workflow call, x 28+ consumer expressions through Linter.Lint.",
     "Environments vary one property of one context at a time; errors that an earlier error of the stricter environment masked are not counted as introduced (the statement speaks of accepted expressions)." + OVERLAY_NOTE,
